@@ -140,6 +140,23 @@ Theorem report_values_are_enforced_values : forall c prefix printed enforced,
 Proof. exact ConstraintsProofs.report_values_are_enforced_values_each. Qed.
 Theorem report_value_lists_nonempty : value_lists <> [].
 Proof. exact (proj2 ConstraintsProofs.report_values_are_enforced_values). Qed.
+(* ---- UNIDIRECTIONAL_SEQUENCE_LSTM: structural constraints (hand model, tied by correspondence) ---- *)
+Theorem lstm_supported_is_documented : forall present ranks,
+  List.length present = 24%nat -> List.length ranks = 24%nat ->
+  lstm_supported present ranks = doc_lstm_supported present ranks.
+Proof. exact ConstraintsProofs.lstm_supported_is_documented. Qed.
+Theorem lstm_no_cifg_subsumed : forall present,
+  List.length present = 24%nat -> lstm_weights present = true -> lstm_no_cifg present = true.
+Proof. exact ConstraintsProofs.lstm_no_cifg_subsumed. Qed.
+Theorem lstm_constraint_lists :
+  0 <= lstm_op /\ mem lstm_op supported_operators = true /\
+  map name_of (assoc lstm_op sup_specific) =
+  map codes ["sup.constraint_lstm_no_cifg"; "sup.constraint_lstm_no_peep_hole"; "sup.constraint_lstm_no_projection";
+             "sup.constraint_lstm_no_normalisation"; "sup.constraint_lstm_weights"; "sup.constraint_lstm_weight_dimensions"]%string /\
+  map name_of (assoc lstm_op sem_specific) =
+  map codes ["sem.constraint_input_signed"; "sem.constraint_matching_in_out_types"; "sem.constraint_lstm_dimensions";
+             "sem.constraint_lstm_inputs"; "sem.constraint_lstm_intermediates"; "sem.constraint_lstm_variables"]%string.
+Proof. exact ConstraintsProofs.lstm_constraint_lists. Qed.
 Theorem report_rows_are_the_supported_builtins : pairs_eqb rows_head expected_rows = true.
 Proof. exact (proj2 report_rows_check). Qed.
 Theorem npu_candidate_iff_report : forall res code op ngen idx,
@@ -155,6 +172,7 @@ Print Assumptions constraint_matches_doc_bias_40bit.
 Print Assumptions constraint_matches_doc_resize.
 Print Assumptions report_lists_enforced.
 Print Assumptions supported_is_conjunction.
+Print Assumptions lstm_supported_is_documented.
 Print Assumptions report_values_are_enforced_values.
 Print Assumptions drivers_match_traced.
 Print Assumptions npu_candidate_iff_report.
